@@ -1,5 +1,6 @@
 import EupsModel.Drv.Util
 import EupsModel.Model.Setup
+import EupsModel.Model.SetupEmit
 /-! Driver handler "c01" (shared by the C01, C02 and C04 harnesses): ops "setup" and "unsetup".
 
 Request
@@ -7,8 +8,9 @@ Request
 {"m":"c01","op":"setup"|"unsetup","fuel":N,
  "db":{"decls":[{"name","ver","stack":k,"dir","table":[ACT…]}…],"tags":[[tag,name,ver,k]…]},
  "env":{"recs":{name:[ver,k]},"dirs":{name:str},"paths":{var:[str…]},"vars":{var:str}},
- "req":{"name","ver":VERREQ|null,"keep":bool,"max_depth":int,"inexact":bool,"tags":[str…],"path":[k…]}}
-ACT    = {"g":"always"|"exact"|"inexact","a":"prepend","var","vals":[{"own":bool,"val"}…],"append":bool}
+ "req":{"name","ver":VERREQ|null,"keep":bool,"max_depth":int,"inexact":bool,"tags":[str…],"path":[k…]},
+ "layout":{"roots":[dir…],"delims":{var:delim},"subst":[[placeholder,dir]…],"flavor":str}}     (optional: answer gets "sh")
+ACT    = {"g":"always"|"exact"|"inexact"|"type:T"|"ntype:T","a":"prepend","var","vals":[{"own":bool,"val"}…],"append":bool}
        | {"g",…,"a":"set","var","own":bool,"val"} | {"g",…,"a":"alias","key","val"}
        | {"g",…,"a":"dep","name","opt":bool,"just":bool,"ver":VERREQ|null,"vexpr":EXPR|null,"tags":[str…],"keep":bool}
 VERREQ = {"v":version} | {"e":EXPR}        EXPR = [[op,version]…]   (alternatives joined by ||)
@@ -44,7 +46,10 @@ def verReqOf (j : Json) : Except String VerReq := do
 def guardOf (s : String) : Except String Guard :=
   match s with
   | "always" => pure .always | "exact" => pure .exact | "inexact" => pure .inexact
-  | _ => throw s!"bad guard {s}"
+  | _ =>
+    if s.startsWith "type:" then pure (.isType (Str.ofString (s.drop 5).toString))
+    else if s.startsWith "ntype:" then pure (.notType (Str.ofString (s.drop 6).toString))
+    else throw s!"bad guard {s}"
 
 def valOf (j : Json) : Except String Val := do
   let s ← jstr j "val"
@@ -162,7 +167,12 @@ def handle : Handler := fun j => do
     | "setup" => pure true
     | "unsetup" => pure false
     | _ => throw s!"unknown op {op}"
-  let db ← dbOf (← j.getObjVal? "db")
+  let db0 ← dbOf (← j.getObjVal? "db")
+  -- `--type t…`: the tables are read under these setup types (absent = none)
+  let types ← match optField j "types" with
+    | some _ => jstrs j "types"
+    | none => pure []
+  let db := db0.withTypes types
   let env ← envOf db (← j.getObjVal? "env")
   let req ← reqOf (← j.getObjVal? "req")
   let fuel ← jnat j "fuel"
@@ -171,8 +181,24 @@ def handle : Handler := fun j => do
     | .cmds l => [("emit", if l == [Cmd.false_] then "false" else "cmds"), ("cmds", Json.arr (l.map (cmdToJson db)).toArray)]
     | .raised => [("emit", "raised")]
     | .fuel => [("emit", "fuel")]
+  -- optional: the command strings of `eups.app.setup` (Model/Setup composed with Model/ShellEmit)
+  let sh : List (String × Json) ← match optField j "layout" with
+    | none => pure []
+    | some lj => do
+      let delims ← (← objList lj "delims").mapM fun (k, v) => do pure (Str.ofString k, Str.ofString (← v.getStr?))
+      let subst ← (← jarr lj "subst").mapM fun t => do
+        let a ← t.getArr?
+        if a.size != 2 then throw "bad substitution"
+        pure (Str.ofString (← a[0]!.getStr?), Str.ofString (← a[1]!.getStr?))
+      let flavors ← match optField lj "flavors" with
+        | some _ => (← objList lj "flavors").mapM fun (k, v) => do pure (Str.ofString k, Str.ofString (← v.getStr?))
+        | none => pure []
+      let L : SetupEmit.Layout := ⟨← jstrs lj "roots", delims, subst, ← jstr lj "flavor", flavors⟩
+      pure [("sh", match SetupEmit.emitSh db L (appSetup db fuel fwd req env) with
+        | some l => ofStrs l
+        | none => Json.null)]
   let vro := ("vro", Json.arr (req.vro.map vroToJson).toArray)
-  pure <| Json.mkObj <| vro :: emit ++ match res with
+  pure <| Json.mkObj <| vro :: emit ++ sh ++ match res with
     | .ok s => ("out", "ok") :: stFields db s
     | .notFound s => ("out", "notfound") :: stFields db s
     | .raised s => ("out", "raised") :: stFields db s
